@@ -60,7 +60,8 @@ _BIN = {ast.Add: operator.add, ast.Sub: operator.sub, ast.Mult: operator.mul, as
 def ceval(expr, env, rational=False):
     e = " ".join(expr.split())
     e = re.sub(r"\b(?:real|T|int|unsigned|double)\s*\(", "(", e)      # casts
-    e = re.sub(r"(\d+)[uUlL]+\b", r"\1", e)
+    e = re.sub(r"\b(0[xX][0-9a-fA-F]+?)[uUlL]+\b", r"\1", e)
+    e = re.sub(r"\b(\d+)[uUlL]+\b", r"\1", e)
     e = re.sub(r"\b[A-Za-z_]\w*::", "", e)                               # qualifiers
     e = e.replace("!", " not ") if False else e
     tree = ast.parse(e, mode="eval")
@@ -102,16 +103,17 @@ def constexpr_ints(txt, scope_hint=None):
     for m in re.finditer(r"static\s+(?:inline\s+)?(?:constexpr|const)\s+(?:int|unsigned|long long)\s+(\w+)\s*=\s*([^;]+);", txt):
         try:
             env[m.group(1)] = ceval(m.group(2), env)
-        except Missing:
+        except (Missing, SyntaxError, TypeError):
             pass
     return env
 
 
-def enum_body(txt, name):
-    m = re.search(r"enum\s+" + name + r"\s*\{([^}]*)\}", txt)
-    if not m:
+def enum_body(txt, name, env0=None, which=0):
+    ms = list(re.finditer(r"enum\s+" + name + r"\s*\{([^}]*)\}", txt))
+    if len(ms) <= which:
         raise Missing(f"enum {name} not found")
-    env, out, nxt = {}, [], 0
+    m = ms[which]
+    env, out, nxt = dict(env0 or {}), [], 0
     for item in m.group(1).split(","):
         item = item.strip()
         if not item:
@@ -351,7 +353,34 @@ def gen_geoid():
     digest.append("Geoid: " + " ".join(info) + f" pixel_max={int(m.group(1),16)}")
 
 
-GENERATORS = [gen_math, gen_gridcodes, gen_utm, gen_geoid]
+def gen_mask():
+    body = "namespace GeoVerif.Gen.Mask\n"
+    info = []
+    for cls, rel in [("geod", "include/GeographicLib/Geodesic.hpp"), ("geodx", "include/GeographicLib/GeodesicExact.hpp")]:
+        txt = preprocess(rel)
+        cap = constexpr_ints(txt)
+        msk = dict(enum_body(txt, "mask", cap))
+        for k in ["CAP_ALL", "CAP_MASK", "OUT_ALL", "OUT_MASK"]:
+            if k not in cap:
+                raise Missing(f"{rel}: {k}")
+            body += f"def {cls}_{k} : Nat := {cap[k]}\n"
+        for k in ["NONE", "LATITUDE", "LONGITUDE", "AZIMUTH", "DISTANCE", "STANDARD", "DISTANCE_IN", "REDUCEDLENGTH", "GEODESICSCALE", "AREA", "LONG_UNROLL", "ALL"]:
+            if k not in msk:
+                raise Missing(f"{rel}: mask {k}")
+            body += f"def {cls}_{k} : Nat := {msk[k]}\n"
+        info.append(f"{cls}: OUT_MASK={cap['OUT_MASK']} DISTANCE_IN={msk['DISTANCE_IN']} ALL={msk['ALL']}")
+    txt = preprocess("include/GeographicLib/Rhumb.hpp")
+    msk = dict(enum_body(txt, "mask"))
+    for k in ["NONE", "LATITUDE", "LONGITUDE", "AZIMUTH", "DISTANCE", "AREA", "LONG_UNROLL", "ALL"]:
+        if k not in msk:
+            raise Missing("Rhumb.hpp: mask " + k)
+        body += f"def rhumb_{k} : Nat := {msk[k]}\n"
+    body += "end GeoVerif.Gen.Mask\n"
+    write("Mask", body)
+    digest.append("Mask: " + "; ".join(info) + f"; rhumb ALL={msk['ALL']}")
+
+
+GENERATORS = [gen_math, gen_gridcodes, gen_utm, gen_geoid, gen_mask]
 
 
 def main():
